@@ -70,7 +70,14 @@ def run(lines, out, args):
                 setattr(mod, I.__name__, I)
                 ifs[int(f[1])] = I
             elif f[0] == "class":
-                C = type("C%s" % f[1], tuple(classes[b] for b in a) or (object,), {"__module__": mod.__name__})
+                # every other root class has a metaclass of its own (importable, like the class: a pickle names both)
+                if not a and int(f[1]) % 2 == 0:
+                    M = type("Meta%s" % f[1], (type,), {"__module__": mod.__name__})
+                    M.__qualname__ = M.__name__
+                    setattr(mod, M.__name__, M)
+                else:
+                    M = type
+                C = M("C%s" % f[1], tuple(classes[b] for b in a) or (object,), {"__module__": mod.__name__})
                 C.__qualname__ = C.__name__
                 setattr(mod, C.__name__, C)
                 classes[int(f[1])] = C
@@ -126,6 +133,10 @@ def run(lines, out, args):
                     got = "ValueError"
             elif f[0] == "cprov":
                 directlyProvides(classes[int(f[1])], *[ifs[x] for x in a])
+            elif f[0] == "mimpl":
+                # a declaration for the class's METACLASS: part of what the class object provides, hence of its declaration's round trip
+                if type(classes[int(f[1])]) is not type:
+                    classImplements(type(classes[int(f[1])]), *[ifs[x] for x in a])
             elif f[0] == "calso":
                 alsoProvides(classes[int(f[1])], *[ifs[x] for x in a])
             elif f[0] == "cnl":
